@@ -431,6 +431,7 @@ class BaseParser:
         result = {}
         dependencies = set()
         unprovided_fields = set()
+        provided = {}
         options = context.options
 
         for key, value in data.items():
@@ -453,10 +454,12 @@ class BaseParser:
                 continue
 
             if not options.ignore_alias_conflicts:
-                if name in result:  # or (excluded_keys and name in excluded_keys):
-                    if result[name] != value:
+                if name in provided:  # or (excluded_keys and name in excluded_keys):
+                    # compare the given values (as field_first_parse does), not the parsed result with a raw value
+                    if provided[name] != value:
                         context.handle_error(exc.AliasConflictError(item=name, value=value))
                     continue
+                provided[name] = value
 
             if excluded_keys and name in excluded_keys:
                 continue
